@@ -2,6 +2,9 @@ import Driver.KV
 import Driver.Shell
 import Driver.Ons
 import Driver.Deleg
+import Driver.Eth
+import Driver.Stake
+import Driver.Rewards
 
 def main (args : List String) : IO UInt32 := do
   match args with
@@ -9,4 +12,7 @@ def main (args : List String) : IO UInt32 := do
   | ["shell"] => Driver.Shell.main; return 0
   | ["ons"] => Driver.Ons.main; return 0
   | ["deleg"] => Driver.Deleg.main; return 0
+  | ["ethtrk"] => Driver.Eth.main; return 0
+  | ["stake"] => Driver.Stake.main; return 0
+  | ["rewards"] => Driver.Rewards.main; return 0
   | _ => IO.eprintln "usage: olpdriver <engine>  (engines: kv, shell)"; return 2
